@@ -77,7 +77,7 @@ CHECKS.update({
 CHECKS.update({
  'C07': dict(cat='translation_validation', ref='4/C07', engine='symx+fir', tech="symbolic execution of the gfortran front-end IR (-fdump-tree-original) of the generated evaluate subroutine against the generated Python _evaluate over the same z3 arrays and canonical uninterpreted arithmetic with interpreted constants; LIA check of the index guards; replay on the machine code via gfortran -shared + ctypes",
    text="Translation validation of the Fortran generator's evaluate routine: for every program of the common subset (bounded-exhaustive <=3 nodes, fixed multi-equation and 40-variable continuation-line programs, seeded samples) the source must compile and the compiler's own IR of evaluate is shown by z3 to leave every series equal to what the Python class computes, for ALL cells, positions t and span lengths (row r <-> NAMES[r-1], index = t+1, both spellings of t), with literals, integer division, index rewriting, row numbers and line wrapping all visible to the comparison; the IR's index guards accept exactly the feasible periods. Second part: the generated solve_t SOURCE is parsed and executed symbolically (fsrc) under the real FortranEngine.solve_t wrapper on seven parser-built models (max_iter 0..2/3, symbolic tol, min_iter, offset, finite Float64 cells, both position spellings) and every joint path must agree with the C02 state machine on outcome, exception type, status, iterations and every cell. Third part: FortranEngine.solve() (generated solve routine) equals the ordered sequence of FortranEngine.solve_t() calls on a twin, over 1..2 (3) feasible periods, default and explicit ranges.",
-   note='Trusted: fir (parser of gfortran 12 GENERIC text; version-specific), IEEE-exact normalisations applied to both sides (commutativity, x+x=2x, sign motion, x**2=x*x, powi, symmetric max/min on non-NaN operands, |exp|=exp), finite data. Counterexamples replayed on real machine code at rtol 1e-12. solve_t: the template SOURCE is interpreted (fsrc: the subset of Fortran the template uses; anything else ends inconclusive), not the IR of gfortran; counterexamples are replayed on the machine code through ctypes under the real wrapper, out-of-bounds subscripts on a -fcheck=bounds build in a child process. FortranEngine.solve() with a non-zero offset, longer spans and non-finite data in the Fortran loop outside.'),
+   note='Trusted: fir (parser of gfortran 12 GENERIC text; version-specific), IEEE-exact normalisations applied to both sides (commutativity, x+x=2x, sign motion, x**2=x*x, powi, symmetric max/min on non-NaN operands, |exp|=exp), finite data. Counterexamples replayed on real machine code at rtol 1e-12. solve_t: the template SOURCE is interpreted (fsrc: the subset of Fortran the template uses; anything else ends inconclusive), not the IR of gfortran; counterexamples are replayed on the machine code through ctypes under the real wrapper, out-of-bounds subscripts on a -fcheck=bounds build in a child process. FortranEngine.solve() with symbolic offsets (offsets -1 / +1 are covered), longer spans and non-finite data in the Fortran loop outside.'),
 })
 
 NOT_APPLICABLE = [
